@@ -1,31 +1,32 @@
-\* C05: two pollers (+workers), r1 can be stopped (killed threads finish late), retry then ok: result/exception present whenever final
+\* C19: two runners, i1 always retries and is waited for (blocking-scan claims), MaxRetries = 1
 SPECIFICATION Spec
 CONSTANTS
-  Inv = {"i1", "i2"}
+  Inv = {"i1"}
   Runner = {"r1", "r2"}
   Client = {"c1"}
   Key <- KeyNone
   Mode = "disabled"
   RerouteOnCC = TRUE
   MaxRetries = 1
-  Outcome <- RetryFail
-  Submissions <- SubMix
+  Outcome <- AlwaysRetry
+  Submissions <- SubOne
   PollN = 1
   Pollers = {"r1", "r2"}
   Recoverers = {}
-  Stoppable = {"r1"}
+  Stoppable = {}
   MaxCrashes = 0
   TrackHist = FALSE
   RecoveryAbortsOnLostRace = FALSE
   IndexBeforeRoute = TRUE
   IncBeforeRetry = TRUE
-  WaitedOn = {}
-CONSTRAINT Bounded
+  WaitedOn <- WaitI1
+CONSTRAINT BoundedC19
 INVARIANT TypeOK
-
+INVARIANT NoStranded
 INVARIANT SuccessHasResult
 INVARIANT FailedHasException
 INVARIANT ChangeLogIsPath
-
+INVARIANT StoppedLeavesNothing
+INVARIANT AtMostMaxPlusOne
 PROPERTY CoreFollowsEdge
 PROPERTY CoreFinalAbsorbing
